@@ -201,11 +201,17 @@ class MaxSumFactorComputation(DcopComputation):
         """
         self._costs[var_name] = msg.costs
 
-        # Wait until we received costs from all our variables before sending
-        # our own costs (if works without doing that, but results are worse)
-        if len(self._costs) == len(self.factor.dimensions):
+        # Before sending our costs to a variable, wait until we received costs
+        # from all our *other* variables (if works without doing that, but
+        # results are worse). The costs sent to a variable do not depend on the
+        # costs received from that variable: waiting for them too would leave
+        # the variable whose message arrives last without any answer, and
+        # would block any factor that is not connected to leaf variables only.
+        if True:
             for v in self.variables:
-                if v.name != var_name:
+                if v.name != var_name and all(
+                    o.name in self._costs for o in self.variables if o.name != v.name
+                ):
                     costs_v = maxsum.factor_costs_for_var(
                         self.factor, v, self._costs, self.mode
                     )
@@ -241,11 +247,6 @@ class MaxSumFactorComputation(DcopComputation):
                         self.logger.debug(
                             f"Not sending (similar) from {self.name} -> {v.name} : {costs_v}"
                         )
-
-        else:
-            self.logger.debug(
-                f" Still waiting for costs from all  the variables {self._costs.keys()}"
-            )
 
 
 class MaxSumVariableComputation(VariableComputation):
